@@ -43,6 +43,10 @@ def record_log(case: str, overwrite: bool):
         shutil.copytree(d, template)
     with RawLog(d) as rl:
         v = good_run(d, case, 2, bust=(overwrite is True))
+    if v != value_of(case, 2) and overwrite == 'foreign':
+        # this tree takes the other class's entry as a hit: there is no save to kill in this history
+        shutil.rmtree(top, ignore_errors=True)
+        return None, None, None
     if v != value_of(case, 2):
         raise HarnessError(f'logged save of {case} failed')
     log = relog(rl.log, d)
